@@ -40,13 +40,12 @@ CFG = dict(
     rule="(gi) random ignore files (1-5 lines from the README forms: blank, comment, literal, glob *, ?, **, leading/inner/trailing "
          "slash, negation) x 3-8 random paths: Gallina gi_ignored vs Gitignore::matched_path_or_any_parents. (pipe) random directory "
          "trees (0-5 directories nested up to 3, 1-8 files incl. upper-case extensions, dot files, non-SQL files, directories named like "
-         "sql files) x 8 extension lists x {no ignore file, README example, directory patterns of the tree, random patterns} x path "
-         "arguments (none, '.', 1-3 files/directories spelled relative, ./relative or absolute, duplicates and overlaps): the real "
+         "sql files) x 10 extension lists (incl. upper-case ones) x {no ignore file, README example, directory patterns of the tree, random patterns} x path "
+         "arguments (none, '.', 1-3 files/directories spelled relative, ./relative, absolute or with a trailing slash, duplicates and overlaps): the real "
          "binary's `lint -f json` keys with multiplicities and the files rewritten by `fix --force` vs the Gallina pipeline, and "
          "directly vs the property text with the ignore crate as gitignore reference. non-trivial = some candidate file is ignored "
          "or the arguments repeat/overlap (pipe), some path is ignored (gi)",
     assumptions=["file and directory names are ASCII without glob metacharacters; no symlinks; all paths lie under the working directory",
-                 "the configured extensions are lower-case (the code lower-cases the file name only)",
                  "ignore patterns use only the documented forms plus negation; '**' only as a whole path component",
                  "the ignore crate's matched_path_or_any_parents is the reference for gitignore semantics (it lets a negation re-include "
                  "a file below an ignored directory, which git itself does not; the two readings coincide without negations: C19_git_agree)"],
